@@ -42,7 +42,10 @@ USERS_ALL = [1, 2, 5]
 
 
 def make_input(case):
-    t = ["SOLUTION 1", " pH 7 charge", " Na 1", " Cl 1", " Ca 0.5", " C 1"]
+    if case["rows"] == "inverse":
+        t = ["SOLUTION 1", " pH 8", " Na 1.2", " Cl 1", " Alkalinity 0.2"]
+    else:
+        t = ["SOLUTION 1", " pH 7 charge", " Na 1", " Cl 1", " Ca 0.5", " C 1"]
     for n in case["blocks"]:
         t.append("SELECTED_OUTPUT %d" % n)
         t.append(" -high_precision %s" % ("true" if case["hp"] else "false"))
@@ -64,7 +67,7 @@ def make_input(case):
             t += ["USER_PUNCH %d" % n, " -headings a b c d late", ' 10 PUNCH 1, 2, 3, 4, "L"']
         t += ["USE solution 1", "REACTION 1", " NaCl 1", " 1 mmol in 2 steps", "END"]
     if case["rows"] == "inverse":
-        t += ["SOLUTION 2", " pH 7 charge", " Na 2", " Cl 2", " Ca 0.5", " C 1", "END",
+        t += ["SOLUTION 2", " pH 8", " Na 2.2", " Cl 2", " Alkalinity 0.2", "END",
               "INVERSE_MODELING 1", " -solutions 1 2", " -phases", "  Halite", " -uncertainty 0.05", "END",
               "USE solution 1", "REACTION 1", " NaCl 1", " 1 mmol", "END"]
     return "\n".join(t) + "\n"
@@ -123,11 +126,31 @@ def is_heading_line(cells, heads):
     return True
 
 
-def judge_text(kind, u, text, table, width, problems, inverse):
+def judge_text(kind, u, text, table, width, problems, inverse, late_unnamed=False):
+    pr = []
+    _judge_text(kind, u, text, table, width, pr, inverse)
+    for fp, what in pr:
+        if late_unnamed and fp.split("-", 1)[1] in ("cell-vs-empty", "cell-missing", "cell-not-a-rendering", "more-cells-than-columns"):
+            fp = "text-positional-vs-table-named-columns after USER_PUNCH redefinition with unnamed columns"
+        if inverse and fp.split("-", 1)[1] in ("cell-vs-empty", "cell-missing", "cell-not-a-rendering", "more-cells-than-columns", "data-row-count"):
+            fp = "table-rows block=inverse_modeling"        # F3: inverse-model rows never reach the table / get merged into the next row
+        problems.append((fp, what))
+
+
+def _judge_text(kind, u, text, table, width, problems, inverse):
     heads = table[0] if table else []
     rows = split_text(text)
+    if not heads:
+        # a block without any column (e.g. SELECTED_OUTPUT n>1 with nothing selected): the text holds empty lines only
+        if any(r for r in rows):
+            problems.append(("%s-cells-without-columns" % kind, "user %d: table has no columns, %s holds %r" % (u, kind, [r for r in rows if r][:2])))
+        return
     data = [r for r in rows if not is_heading_line(r, heads)]
     nrows = max(0, len(table) - 1)
+    # a heading line without any heading text (USER_PUNCH without -headings) is an empty line: indistinguishable from a data
+    # row in which nothing was punched, so surplus empty lines are taken as heading lines
+    while len(data) > nrows and [] in data:
+        data.remove([])
     if len(data) != nrows:
         fp = "%s-data-row-count" % kind
         if inverse:
@@ -268,6 +291,8 @@ def _run_case(d, case):
     ncells = 0
     width = 20 if case["hp"] else 12
     inverse = case["rows"] == "inverse"
+    # USER_PUNCH first punches more values than it has headings (columns no_heading_k), then is redefined with more headings
+    late_unnamed = case["rows"] == "late" and case["punch"] in ("h1many", "h0") and "nouserpunch" not in case["opts"]
     sig = []
     for u in users:
         e = o["sel"][str(u)]
@@ -299,7 +324,7 @@ def _run_case(d, case):
         text = e["str"]
         if so:
             pr = []
-            judge_text("string", u, text, table, width, pr, inverse)
+            judge_text("string", u, text, table, width, pr, inverse, late_unnamed)
             if e["lines"] != (text.split("\n")[:-1] if text.endswith("\n") else text.split("\n")) and text != "":
                 pr.append(("lines-vs-string", "user %d: line accessors differ from the string" % u))
             if pr and not eff_so and text == "" and R > 1:
@@ -313,7 +338,7 @@ def _run_case(d, case):
                 if R > 1:
                     problems.append(("file-missing", "user %d: file sink on, table has %d rows, no file %r" % (u, R, e["fname"])))
             else:
-                judge_text("file", u, ftext, table, width, problems, inverse)
+                judge_text("file", u, ftext, table, width, problems, inverse, late_unnamed)
     # --- unknown user number
     d.call("s0", "c", "SetCurrentSelectedOutputUserNumber", 7)
     for nm, fn, args in (("C", "GetSelectedOutputValue", (0, 0)), ("Value2", "GetSelectedOutputValue2", (0, 0, 32)), ("ValueF", "GetSelectedOutputValueF", (0, 1, 32))):
@@ -383,6 +408,8 @@ def cases(tier):
                     osets = optsets
                     if tier == "quick" and (len(blocks) == 2 or rows == "late"):
                         osets = [o for o in optsets if len(o) <= 1]
+                    if tier == "thorough" and (len(blocks) == 2 or rows == "late"):
+                        osets = [o for o in optsets if len(o) <= 2]
                     if rows == "inverse":
                         osets = [o for o in optsets if len(o) <= 1]
                     for opts in osets:
